@@ -16,11 +16,15 @@ pub fn gen(tier: &str, seed: u64, emit: &mut dyn FnMut(String)) {
     let big = tier == "thorough";
     // two-phase streams: warm-up (tables, every PID seen), then steady state (more PES packets, repeated tables, null packets)
     for i in 0..(if big { 6000 } else { 400 }) {
-        let progs = gen_programs(&mut rng, 1 + (i % 3) as usize);
+        let mut progs = gen_programs(&mut rng, 1 + (i % 3) as usize);
+        // every tenth stream: two programs whose maps travel on ONE PID with the same version_number (two sub-tables of one
+        // PID: the second is taken for a repetition); every twentieth: with different versions (finding F10)
+        let shared_pmt_pid = i % 10 == 7 && progs.len() >= 2;
+        if shared_pmt_pid { progs[1].pmt_pid = progs[0].pmt_pid; }
         let mut m = Mux::new();
         let pat = section(0, 7, 1, true, &pat_body(&progs.iter().map(|p| (p.number, p.pmt_pid)).collect::<Vec<_>>(), &mut rng));
-        let pmts: Vec<Vec<u8>> = progs.iter().map(|p| { let ss: Vec<(u8, u16, Vec<u8>)> = p.streams.iter().map(|(t, e)| (*t, *e, if i % 4 == 0 { descriptor(0x80, &vec![0x41; 70]) } else { vec![] })).collect();
-            section(2, p.number, 3, true, &pmt_body(p.pcr_pid, &[], &ss, &mut rng)) }).collect();
+        let pmts: Vec<Vec<u8>> = progs.iter().enumerate().map(|(idx, p)| { let ver = if shared_pmt_pid && i % 20 == 17 && idx == 1 { 4 } else { 3 }; let ss: Vec<(u8, u16, Vec<u8>)> = p.streams.iter().map(|(t, e)| (*t, *e, if i % 4 == 0 { descriptor(0x80, &vec![0x41; 70]) } else { vec![] })).collect();
+            section(2, p.number, ver, true, &pmt_body(p.pcr_pid, &[], &ss, &mut rng)) }).collect();
         m.psi(0, &pat, 0, 0, &mut rng);
         for (p, s) in progs.iter().zip(pmts.iter()) { m.psi(p.pmt_pid, s, 0, rng.below(2), &mut rng); }
         let epids: Vec<u16> = progs.iter().flat_map(|p| p.streams.iter().map(|s| s.1)).collect();
